@@ -190,6 +190,15 @@ pub fn eval_pure(c: &PureCase) -> Outcome {
             o.class("alternating_instances_with_schedule");
         }
     }
+    // moved to another thread in the middle of the history (after a generated number of calls)
+    for (i, (l, r)) in refs.iter().enumerate() {
+        let cut = if l.ops.is_empty() { 0 } else { (c.schedule.get(i).copied().unwrap_or(c.threads.wrapping_mul(7)) as usize) % l.ops.len() };
+        let r2 = crate::exec::run_moved(&l.cfg, &l.ops, cut);
+        if r2.out != r.out || !same_returns(&r2.results, &r.results) {
+            o.fail("send", "send.moved_mid_history", format!("history {} gives different results when the muxer is moved to another thread after {} of {} calls", i, cut, l.ops.len()));
+            return o;
+        }
+    }
     // the same frames at another memory alignment (sub-slices of a larger buffer)
     for (i, (l, r)) in refs.iter().enumerate() {
         let mut cfg = l.cfg.clone();
@@ -377,6 +386,44 @@ pub fn eval_paths(c: &PathCase) -> Outcome {
                             );
                             break;
                         }
+                    }
+                }
+            }
+        }
+    }
+    // 2c. on a sink whose write() succeeds and whose flush() fails, every finish form must still agree with every other one
+    //     (whether a library flushes its sink is its decision, but not one that may differ between equivalent calls)
+    if r.finished_at.is_some() {
+        struct FlushFails(Arc<Mutex<Vec<u8>>>);
+        impl Write for FlushFails {
+            fn write(&mut self, b: &[u8]) -> std::io::Result<usize> {
+                self.0.lock().unwrap().extend_from_slice(b);
+                Ok(b.len())
+            }
+            fn flush(&mut self) -> std::io::Result<()> {
+                Err(std::io::Error::from_raw_os_error(28))
+            }
+        }
+        let n = l.ops.len();
+        let none = |_: usize| {};
+        let mut seen: Option<(bool, Vec<u8>, u8)> = None;
+        for k in 0..5u8 {
+            let mut ops = l.ops.clone();
+            ops[n - 1] = COp::Finish(FinishKind::from_idx(k));
+            let buf = Arc::new(Mutex::new(Vec::new()));
+            let (_, res) = crate::exec::run_plain(FlushFails(buf.clone()), &l.cfg, &ops, &none);
+            let ok = res.last().map(|x| x.is_ok()).unwrap_or(false);
+            let bytes = buf.lock().unwrap().clone();
+            match &seen {
+                None => seen = Some((ok, bytes, k)),
+                Some((ok0, b0, k0)) => {
+                    if ok != *ok0 || &bytes != b0 {
+                        o.fail(
+                            "paths",
+                            format!("paths.finish_form.flush_failing_sink.{:?}", FinishKind::from_idx(k)),
+                            format!("on a sink whose flush() fails, {:?} returns ok={} ({} bytes) but {:?} returns ok={} ({} bytes)", FinishKind::from_idx(k), ok, bytes.len(), FinishKind::from_idx(*k0), ok0, b0.len()),
+                        );
+                        break;
                     }
                 }
             }
@@ -963,7 +1010,7 @@ fn eval_after_failure(c: &ValidCase) -> Outcome {
     }
     let n_calls = r.sink.writes.len();
     for call in 0..n_calls {
-        for (k, script) in [Script::FailAtCall { call, kind: (call % 6) as u8 }, Script::FailOnceAtCall { call, kind: 7 }].into_iter().enumerate() {
+        for (k, script) in [Script::FailAtCall { call, kind: (call % crate::faultsink::N_KINDS as usize) as u8 }, Script::FailOnceAtCall { call, kind: 7 }, Script::PanicAtCall { call }].into_iter().enumerate() {
             o.sub_evals += 1;
             let sink = FaultSink::new(script.clone());
             let st = sink.st.clone();
@@ -973,10 +1020,18 @@ fn eval_after_failure(c: &ValidCase) -> Outcome {
             });
             for (who, cfg, ops, want) in [("a small recording", &small, &follower_ops, &follower_ref), ("the same recording", &l.cfg, &l.ops, &r)] {
                 let again = run_history(cfg, ops);
+                if let Some(p) = &again.panic {
+                    o.fail(
+                        "same_bytes",
+                        format!("same_bytes.after_a_failed_muxer.{}.panic", ["sticky", "transient", "sink_panicked"][k]),
+                        format!("{} muxed on the same thread after a muxer whose sink failed at write call {} panics although its own sink is healthy: {}", who, call, p),
+                    );
+                    return o;
+                }
                 if again.out != want.out || !same_returns(&again.results, &want.results) {
                     o.fail(
                         "same_bytes",
-                        format!("same_bytes.after_a_failed_muxer.{}", if k == 0 { "sticky" } else { "transient" }),
+                        format!("same_bytes.after_a_failed_muxer.{}", ["sticky", "transient", "sink_panicked"][k]),
                         format!("{} muxed on the same thread after a muxer whose sink failed at write call {} gives {} bytes instead of {}", who, call, again.out.len(), want.out.len()),
                     );
                     return o;
@@ -1043,6 +1098,23 @@ pub fn eval_frag_pool(c: &FragPool) -> Outcome {
                 "same_bytes",
                 "same_bytes.fragmented.alternating_instances",
                 format!("fragmented history {} gives different results when {} fragmented muxers take turns call by call on one thread (first differing call: {:?}, panic: {:?})", i, runs.len(), at, g.panic),
+            );
+            return o;
+        }
+    }
+    // each muxer moved to another thread in the middle of its history (with samples queued, between a write and its flush)
+    for (i, l) in lowered.iter().enumerate() {
+        if l.ops.is_empty() {
+            continue;
+        }
+        let cut = (c.schedule.get(i).copied().unwrap_or(3) as usize) % l.ops.len();
+        let moved = crate::frag::run_frag_moved(&l.cfg, &l.ops, cut);
+        if moved.panic.is_some() || moved.results != alone[i].results {
+            let at = moved.results.iter().zip(alone[i].results.iter()).position(|(a, b)| a != b);
+            o.fail(
+                "send",
+                "send.fragmented.moved_mid_history",
+                format!("fragmented history {} gives different results when the muxer is moved to another thread after {} of {} calls (first differing call: {:?}, panic: {:?})", i, cut, l.ops.len(), at, moved.panic),
             );
             return o;
         }
